@@ -54,7 +54,7 @@ func judge(src string, recs []tgen.Record, fileName string, f *tgen.File, st ste
 	if strings.HasPrefix(r.Err, "panic:") {
 		return fmt.Errorf("render panicked: %s", r.Err)
 	}
-	if !bytes.HasPrefix(d0, r.Out) && !(st.kind == "comp" && compReached) && !st.job.ToGoHTML {
+	if !bytes.HasPrefix(d0, r.Out) && !(st.kind == "comp" && compReached) && !st.job.ToGoHTML && st.kind != "overlap" {
 		return fmt.Errorf("%s: the writer received %q, not a prefix of the document %q", st.kind, clip(r.Out), clip(d0))
 	}
 	if st.job.ToGoHTML && r.Err != "" {
@@ -98,6 +98,19 @@ func judge(src string, recs []tgen.Record, fileName string, f *tgen.File, st ste
 		}
 		if !r.WriterErr {
 			return fmt.Errorf("writer failed at byte %d but the returned error %q does not wrap the writer's error", k, r.Err)
+		}
+	case "overlap":
+		if r.Err != "" {
+			return fmt.Errorf("two overlapping fault-free renders: %s", r.Err)
+		}
+		if !bytes.Equal(r.Ref1, d0) {
+			return fmt.Errorf("the same arguments rendered alone gave %q, before that %q", clip(r.Ref1), clip(d0))
+		}
+		if !bytes.Equal(r.Out, r.Ref1) {
+			return fmt.Errorf("a render whose writer was slow to take the first write returned nil, but the writer received %q, the document is %q (a render of other arguments ran meanwhile and writes %q)", clip(r.Out), clip(r.Ref1), clip(r.Ref2))
+		}
+		if !bytes.Equal(r.Out2, r.Ref2) {
+			return fmt.Errorf("a render that ran while another one was parked in its writer wrote %q, alone it writes %q", clip(r.Out2), clip(r.Ref2))
 		}
 	case "cancel":
 		if !r.Canceled || r.Err == "" {
@@ -225,6 +238,13 @@ func genSteps(t *rapid.T, a tgen.Args, docLen int, exhaustive bool) []step {
 		jp := tbatch.Plain(0, a)
 		jp.ToGoHTML = true
 		out = append(out, step{job: jp, kind: "plain"}, step{job: jp, kind: "plain"})
+	}
+	// two fault-free renders overlap on one processor: the first is parked in its writer
+	{
+		jo := tbatch.Plain(0, a)
+		jo.Overlap = true
+		out = append(out, step{job: jo, kind: "overlap"})
+		plain()
 	}
 	// other faults, interleaved with fault-free renders
 	j := tbatch.Plain(0, a)
